@@ -121,3 +121,37 @@ VARIANTS += [
  dict(name='list-method-value-drops-dotted-names', file=M, expect='flagged(list/complete)', find=LIST_OLD,
       replace=list_method('d.Type()&(fs.ModeDir|fs.ModeSymlink) != fs.ModeDir', before='\tcase len(d.Name()) > 0 && d.Name()[0] == \'.\':\n\t\treturn fs.SkipDir\n')),
 ]
+
+# guard mutants (pass 7): the walk error of the listing — the callback hands back every walk error that is not not-exist,
+# and the lister reports the names only when the walk's own result is nil
+WE_OLD = 'error) error {\n\t\tif err != nil {\n\t\t\tif errors.Is(err, os.ErrNotExist) {\n\t\t\t\treturn nil\n\t\t\t}\n\t\t\treturn err\n\t\t}\n'
+def we_new(body):
+    return 'error) error {\n' + body
+WR_OLD = '\t}); err != nil {\n\t\treturn nil, PluginDirectoryWalkError(fmt.Errorf("failed to list plugin: %w", err))\n\t}\n\treturn plugins, nil\n'
+WE_HELPERS = (M, '// CLIInstallOptions provides user customized options for plugin installation\n',
+              'func walkFailed(e error) bool { return e != nil }\n\nfunc rootMissing(e error) bool { return errors.Is(e, fs.ErrNotExist) }\n\n// CLIInstallOptions provides user customized options for plugin installation\n')
+VARIANTS += [
+ dict(name='gm-list-walk-error-false-conjunct', file=M, expect='flagged(list/walk-error-handed-back)', find=WE_OLD,
+      replace=we_new('\t\tif false && (err != nil) {\n\t\t\tif errors.Is(err, os.ErrNotExist) {\n\t\t\t\treturn nil\n\t\t\t}\n\t\t\treturn err\n\t\t}\n')),
+ dict(name='gm-list-walk-error-realistic-conjunct-only-below-the-root', file=M, expect='flagged(list/walk-error-handed-back)', find=WE_OLD,
+      replace=we_new('\t\tif dir != "." && err != nil {\n\t\t\tif errors.Is(err, os.ErrNotExist) {\n\t\t\t\treturn nil\n\t\t\t}\n\t\t\treturn err\n\t\t}\n')),
+ dict(name='list-walk-error-permission-denied-tolerated', file=M, expect='flagged(list/walk-error-handed-back)', find=WE_OLD,
+      replace=we_new('\t\tif err != nil {\n\t\t\tif errors.Is(err, os.ErrNotExist) || errors.Is(err, fs.ErrPermission) {\n\t\t\t\treturn nil\n\t\t\t}\n\t\t\treturn err\n\t\t}\n')),
+ dict(name='list-walk-error-answered-with-skipdir', file=M, expect='flagged(list/walk-error-handed-back)', find=WE_OLD,
+      replace=we_new('\t\tif err != nil {\n\t\t\tif errors.Is(err, os.ErrNotExist) {\n\t\t\t\treturn nil\n\t\t\t}\n\t\t\treturn fs.SkipDir\n\t\t}\n')),
+ dict(name='gm-list-walk-result-false-conjunct', file=M, expect='flagged(list/walk-result-decides)', find=WR_OLD,
+      replace=WR_OLD.replace('}); err != nil {', '}); false && (err != nil) {')),
+ dict(name='gm-list-walk-result-realistic-conjunct-nothing-collected', file=M, expect='flagged(list/walk-result-decides)', find=WR_OLD,
+      replace=WR_OLD.replace('}); err != nil {', '}); len(plugins) == 0 && err != nil {')),
+ dict(name='benign-gm-list-walk-error-nested-swapped', file=M, expect='silent', find=WE_OLD,
+      replace=we_new('\t\tif nil != err {\n\t\t\tif !errors.Is(err, os.ErrNotExist) {\n\t\t\t\treturn err\n\t\t\t}\n\t\t\treturn nil\n\t\t}\n')),
+ dict(name='benign-gm-list-walk-error-not-exist-tested-first', file=M, expect='silent', find=WE_OLD,
+      replace=we_new('\t\tif errors.Is(err, fs.ErrNotExist) {\n\t\t\treturn nil\n\t\t}\n\t\tif err != nil {\n\t\t\treturn err\n\t\t}\n')),
+ dict(name='benign-gm-list-walk-error-tests-in-helpers', file=M, expect='silent', find=WE_OLD,
+      replace=we_new('\t\tif walkFailed(err) {\n\t\t\tif rootMissing(err) {\n\t\t\t\treturn nil\n\t\t\t}\n\t\t\treturn err\n\t\t}\n'), edits=[WE_HELPERS]),
+ dict(name='benign-gm-list-walk-error-switch-one-condition', file=M, expect='silent', find=WE_OLD,
+      replace=we_new('\t\tswitch {\n\t\tcase err == nil:\n\t\tcase os.IsNotExist(err):\n\t\t\treturn nil\n\t\tdefault:\n\t\t\treturn err\n\t\t}\n')),
+ dict(name='benign-gm-list-walk-result-switch-on-named-result', file=M, expect='silent', find=WR_OLD,
+      replace='\t})\n\tswitch {\n\tcase nil == walkErr:\n\t\treturn plugins, nil\n\tdefault:\n\t\treturn nil, PluginDirectoryWalkError(fmt.Errorf("failed to list plugin: %w", walkErr))\n\t}\n',
+      edits=[(M, '\tif err := fs.WalkDir(m.pluginFS, ".", func(', '\twalkErr := fs.WalkDir(m.pluginFS, ".", func(')]),
+]
